@@ -222,8 +222,8 @@ double cmb_datasummary_skewness(const struct cmb_datasummary *dsp)
     cmb_assert_release(dsp->cookie == CMI_INITIALIZED);
 
     double r = 0.0;
-    if (dsp->count > 2u) {
-        /* Estimate population skewness */
+    if ((dsp->count > 2u) && (dsp->m2 > 0.0)) {
+        /* Estimate population skewness (undefined, here zero, for constant data) */
         const double dn = (double)dsp->count;
         const double g = sqrt(dn) * dsp->m3 / pow(dsp->m2, 1.5);
 
@@ -241,8 +241,8 @@ double cmb_datasummary_kurtosis(const struct cmb_datasummary *dsp)
     cmb_assert_release(dsp->cookie == CMI_INITIALIZED);
 
     double r = 0.0;
-    if (dsp->count > 3u) {
-        /* Estimate population excess kurtosis */
+    if ((dsp->count > 3u) && (dsp->m2 > 0.0)) {
+        /* Estimate population excess kurtosis (undefined, here zero, for constant data) */
         const double dn = (double)dsp->count;
         const double g = dn * dsp->m4 / (dsp->m2 * dsp->m2) - 3.0;
 
